@@ -15,6 +15,7 @@ import CalmVerif.Model.Grammar
 import CalmVerif.Gen.Tables.Cert
 import CalmVerif.Proofs.LRSound
 import CalmVerif.Spec.Es5Grammar
+import CalmVerif.Proofs.GrammarFacts
 namespace CalmVerif.Props.C03
 open CalmVerif.Model CalmVerif.Model.LR
 
@@ -34,6 +35,45 @@ theorem lr_sound {τ σ ε : Type} (ty : τ → Nat) (R : Source τ σ ε) (fuel
     program on which the parser now disagrees with the reference parser -/
 theorem grammar_is_reviewed : Gen.Tables.Cached.grammarLines = Spec.Es5Grammar.productions := by
   decide +kernel
+
+section clauses
+open CalmVerif.Model.GrammarFacts
+
+def g : GT :=
+  { terminals := Gen.Tables.Cached.terminals, nonterminals := Gen.Tables.Cached.nonterminals,
+    prods := Gen.Tables.Cached.prods, action := Gen.Tables.Cached.action, defaulted := Gen.Tables.Cached.defaulted }
+
+/-- operator precedence and associativity: the ten binary levels, in their plain / `_nobf` / `_noin` variants, are
+    left-recursive over exactly the ES5 operators of the level, and each level passes through to the next tighter one -/
+theorem binary_levels_chain : binaryLevelsOK g = true ∧ chainOK g "" = true ∧ chainOK g "_noin" = true := by
+  decide +kernel
+
+/-- assignment and conditional expressions are right-recursive -/
+theorem assignment_conditional_right_assoc :
+    rightAssocLevel g "assignment_expr" ["assignment_expr"] = true ∧
+    rightAssocLevel g "assignment_expr_noin" ["assignment_expr_noin"] = true ∧
+    rightAssocLevel g "assignment_expr_nobf" ["assignment_expr"] = true ∧
+    rightAssocLevel g "conditional_expr" ["assignment_expr"] = true ∧
+    rightAssocLevel g "conditional_expr_noin" ["assignment_expr_noin"] = true := by
+  decide +kernel
+
+/-- `in` is excluded from the NoIn family (for-initialisers) -/
+theorem noin_family_excludes_in : noinExcludesIn g = true := by decide +kernel
+
+/-- `else` binds to the nearest `if` -/
+theorem else_binds_nearest : elseBindsNearest g Gen.Tables.Cert.cert = true := by decide +kernel
+
+/-- an expression statement never starts with `{` … -/
+theorem exprstmt_never_starts_with_brace :
+    (firstTerminals g "expr_nobf").contains (g.term "LBRACE") = false := by decide +kernel
+
+/-- … but it CAN start with `function` in this grammar (finding KF-03a: `function_expr` is an alternative of
+    `member_expr_nobf`; only a bare function expression is rejected, by the semantic action) — the clause of the
+    property is false of the pinned code and this is its witness at grammar level -/
+theorem exprstmt_can_start_with_function_KF03a :
+    (firstTerminals g "expr_nobf").contains (g.term "FUNCTION") = true := by decide +kernel
+
+end clauses
 
 /-- the driver is a function: same tables, source and fuel give the same outcome (determinism) -/
 theorem lr_deterministic {τ ν σ ε : Type} (S : Sem τ ν σ ε) (R : Source τ σ ε) (fuel : Nat)
